@@ -246,6 +246,12 @@ func parkForever() { select {} }
 //
 //go:norace
 func (t *Task) park() {
+	// Race mode: what this task did so far happens before the NEXT run in this
+	// process (Run acquires runEpoch first thing).  Nobody acquires it within a
+	// run, so no edge between the tasks of one run results.  Without it a report
+	// could pair an access of this run with one of an earlier run and would not
+	// reproduce when the run is replayed alone.
+	RaceRelease(&runEpoch)
 	raceOff()
 	if t.sim.stopped.Load() {
 		parkForever()
@@ -256,6 +262,9 @@ func (t *Task) park() {
 	}
 	raceOn()
 }
+
+// runEpoch orders the runs of one worker process for the race detector (see park).
+var runEpoch [8]byte
 
 // Yield is a scheduling point: any ready task may run next.
 //
@@ -409,6 +418,7 @@ func (s *Sim) taskExit(t *Task, id uint64) {
 	}
 	// everything this task did happens-before whoever joins it
 	RaceRelease(&t.RaceCtx)
+	RaceRelease(&runEpoch) // ... and before the next run in this process (see park)
 	s.lock()
 	if r != nil && s.verdict == VOK {
 		s.verdict = VCrash
@@ -561,6 +571,7 @@ func New(cfg Config, S *Choices) *Sim {
 //
 //go:norace
 func (s *Sim) Run(mainFn func(t *Task)) *Result {
+	RaceAcquire(&runEpoch)
 	active.Store(s)
 	var mt *Task
 	mt = s.spawn("main", func() {
